@@ -787,6 +787,11 @@ func (b *BlockWise[C]) processReceivedMessage(w *responsewriter.ResponseWriter[C
 		szx = getSzx(szx, maxSzx)
 		// if there is no more then just forward req to next handler
 		if !more {
+			if blockType == message.Block1 && num != 0 {
+				// the last block of an upload whose earlier blocks are not held (lost, or a late
+				// duplicate after the transfer finished) is not a complete request - RFC 7959 2.5
+				return fmt.Errorf("received final block(%v) of a request body whose previous blocks are not available", num)
+			}
 			next(w, r)
 			return nil
 		}
